@@ -602,6 +602,16 @@ func compress(toks, prefix []string) string {
 	return strings.Join(out, ",")
 }
 
+// firstFull is the sequence observed by the first goroutine that read until an error.
+func firstFull(seqs []string, plan string) string {
+	for i, p := range strings.Split(plan, ",") {
+		if p == "-1" && i < len(seqs) {
+			return seqs[i]
+		}
+	}
+	return ""
+}
+
 func exec(line string, st *hx.Stats) string {
 	f := strings.Fields(line)
 	switch f[0] {
@@ -611,6 +621,22 @@ func exec(line string, st *hx.Stats) string {
 		return execShared(f)
 	case "shs":
 		return execSharedStress(f)
+	case "shr":
+		// shr <script> <plan> <rounds>: the stress case repeated; prints the first deviating round's output (same format as
+		// shs) or the last round's.  Used to reproduce the rare stale-fetch interleaving of fetchAndWait.
+		rounds, _ := strconv.Atoi(f[3])
+		last := ""
+		for i := 0; i < rounds; i++ {
+			last = execSharedStress(f[:3])
+			seqs := strings.Split(strings.SplitN(last, " | ", 2)[0], ";")
+			for gi, sq := range seqs {
+				// goroutines with plan -1 must all observe the same sequence
+				if strings.Split(f[2], ",")[gi] == "-1" && sq != firstFull(seqs, f[2]) {
+					return last
+				}
+			}
+		}
+		return last
 	}
 	return "badcase"
 }
